@@ -70,11 +70,10 @@ func loopProgram(kind int) *Scenario {
 
 func checkC17(c c17Case, st *Stats) *Violation {
 	n := len(c.Scenarios)
-	// sequential pre-pass
+	// The concurrent pass comes FIRST: whatever an instance initialises lazily the first
+	// time it is needed (a cache, a memoised name, a shared table) is then initialised
+	// while other instances run. The sequential reference pass follows.
 	want := make([]string, n)
-	for i, sc := range c.Scenarios {
-		want[i] = runOutcome(sc, c.Debug)
-	}
 	// concurrent pass: all at once, each twice
 	got := make([]string, 2*n)
 	var wg sync.WaitGroup
@@ -89,6 +88,9 @@ func checkC17(c c17Case, st *Stats) *Violation {
 	}
 	close(start)
 	wg.Wait()
+	for i, sc := range c.Scenarios {
+		want[i] = runOutcome(sc, c.Debug)
+	}
 	for i := range got {
 		if got[i] != want[i%n] {
 			return violf("interference", "scenario %d gives another result when %d EVM instances run concurrently\n alone:      %.1500s\n concurrent: %.1500s", i%n, 2*n, want[i%n], got[i])
